@@ -54,6 +54,8 @@ func main() {
 		cmdReplay(os.Args[2:])
 	case "selftest":
 		cmdSelftest(os.Args[2:])
+	case "describe":
+		cmdDescribe()
 	default:
 		fatal("unknown command %s", os.Args[1])
 	}
@@ -215,4 +217,29 @@ func parseParams(ps []string) map[string]interface{} {
 func hashOf(v interface{}) string {
 	b, _ := json.Marshal(v)
 	return fmt.Sprintf("%x", sha1.Sum(b))[:12]
+}
+
+// cmdDescribe prints, for every property and tier, the units and bounds registered in
+// props.go (JSON lines; used by tools/bounds_table.py for DESIGN.md 10.2).
+func cmdDescribe() {
+	known := loadKnown()
+	p := loadProgram(known)
+	ids := make([]string, 0, len(props))
+	for id := range props {
+		ids = append(ids, id)
+	}
+	sort.Strings(ids)
+	for _, id := range ids {
+		for _, tier := range []string{"quick", "thorough"} {
+			ctx := &checkCtx{tier: tier, seed: seedFromEnv(), known: known, p: p}
+			def := props[id]
+			us := def.Units(ctx)
+			entries := map[string]int{}
+			for _, u := range us {
+				entries[u.Entry]++
+			}
+			b, _ := json.Marshal(map[string]interface{}{"id": id, "tier": tier, "units": len(us), "entries": entries, "bounds": def.Bounds(ctx), "outside": def.Outside})
+			fmt.Println(string(b))
+		}
+	}
 }
